@@ -286,6 +286,57 @@ Plausible60(c) ==
   /\ c.bs = 1 => Abs(VRate60Fpm(c.bsg, c.baro)) <= 6000
   /\ c.vs = 1 => Abs(VRate60Fpm(c.vsg, c.ivv)) <= 6000
 
+Sel(cond, name) == IF cond THEN <<name>> ELSE <<>>
+(* ----------------------------------------------------------------------- *)
+(* Rims of the named envelopes.  Every inequality of Plausible40/50/60 has *)
+(* a last accepted code (or, for a constraint on two fields, a set of code *)
+(* pairs) on its inner boundary; a decoder whose envelope is narrower by   *)
+(* one LSB rejects exactly those.  The constants are derived from the      *)
+(* inequalities (checked in MC_FieldCodec: inside at the value, outside    *)
+(* one code further).  Rims(k, c) names the inequalities on whose inner    *)
+(* boundary the vector lies, for vectors whose obligations are active.     *)
+(* ----------------------------------------------------------------------- *)
+RollMax50 == (50 * 256) \div 45            \* 284: |roll| <= 50 deg, LSB 45/256 deg
+GsMax50 == 600 \div 2                       \* 300: GS <= 600 kt, LSB 2 kt
+TasMin50 == 80 \div 2                       \* 40
+TasMax50 == 500 \div 2                      \* 250
+GsTasDiffMax50 == 200 \div 2                \* 100 codes: |GS - TAS| <= 200 kt
+VRateMax60 == 6000 \div 32                  \* 187: |VS| <= 6000 ft/min, LSB 32 ft/min
+IasMax60 == 500
+MachMax60 == 250                            \* Mach 1.0, LSB 0.004
+Alt40Max == 45000 \div 16                   \* 2812: selected altitude <= 45000 ft, LSB 16 ft
+Enc9(x) == IF x >= 0 THEN [sg |-> 0, m |-> x] ELSE [sg |-> 1, m |-> 512 + x]
+
+Rims(k, c) ==
+  CASE k = "tt50" /\ Plausible50(c) ->
+         Sel(c.rs = 1 /\ Abs(TwosC(c.rsg, c.roll, 9)) = RollMax50, "bds50:|roll|<=50deg")
+         \o Sel(c.gss = 1 /\ c.gs = GsMax50, "bds50:GS<=600kt")
+         \o Sel(c.gss = 1 /\ c.tass = 1 /\ c.tas = TasMin50, "bds50:TAS>=80kt")
+         \o Sel(c.gss = 1 /\ c.tass = 1 /\ c.tas = TasMax50, "bds50:TAS<=500kt")
+         \o Sel(c.gss = 1 /\ c.tass = 1 /\ Abs(c.gs - c.tas) = GsTasDiffMax50, "bds50:|GS-TAS|<=200kt")
+         \o Sel(c.rs = 1 /\ RateObliged50(c) /\ Roll256(c) * Rate32(c) = 0, "bds50:roll*rate>=0")
+    [] k = "hs60" /\ Plausible60(c) ->
+         Sel(c.iss = 1 /\ c.ias = 1, "bds60:IAS>0")
+         \o Sel(c.iss = 1 /\ c.ias = IasMax60, "bds60:IAS<=500kt")
+         \o Sel(c.mas = 1 /\ c.mach = 1, "bds60:Mach>0")
+         \o Sel(c.mas = 1 /\ c.mach = MachMax60, "bds60:Mach<=1")
+         \o Sel(c.iss = 1 /\ c.mas = 1 /\ ((c.ias = 250 /\ c.mach < 100) \/ (c.ias > 250 /\ c.mach = 100)),
+                "bds60:not(IAS>250&Mach<0.4)")
+         \o Sel(c.iss = 1 /\ c.mas = 1 /\ ((c.ias = 150 /\ c.mach > 125) \/ (c.ias < 150 /\ c.mach = 125)),
+                "bds60:not(IAS<150&Mach>0.5)")
+         \o Sel(VRateObliged60(c.bs, c.baro) /\ Abs(TwosC(c.bsg, c.baro, 9)) = VRateMax60, "bds60:|baro_rate|<=6000fpm")
+         \o Sel(VRateObliged60(c.vs, c.ivv) /\ Abs(TwosC(c.vsg, c.ivv, 9)) = VRateMax60, "bds60:|inertial_rate|<=6000fpm")
+    [] k = "vi40" /\ Plausible40(c) ->
+         Sel(c.ms = 1 /\ c.malt = Alt40Max, "bds40:MCP<=45000ft")
+         \o Sel(c.fst = 1 /\ c.falt = Alt40Max, "bds40:FMS<=45000ft")
+         \o Sel(c.ms = 1 /\ (16 * c.malt) % 100 \in {8, 92}, "bds40:MCP_100ft_grid")
+         \o Sel(c.fst = 1 /\ (16 * c.falt) % 100 \in {8, 92}, "bds40:FMS_100ft_grid")
+    [] k = "ts62" -> Sel(c.alt >= 1 /\ (32 * (c.alt - 1)) % 100 \in {16, 84}, "bds62:selalt_100ft_grid")
+    [] k = "ap05" -> Sel(Alt12Meaningful(c.alt) /\ AC12Ft(c.alt) = 25, "alt12:>0ft")
+    [] k \in {"surv", "cs20"} /\ c.df \in {4, 20} ->
+         Sel(Alt13Meaningful(c.ac) /\ AC13Ft(c.ac) = 25, "alt13:>0ft")
+    [] OTHER -> <<>>
+
 (* ======================================================================= *)
 (* Frame layouts                                                           *)
 (* ======================================================================= *)
@@ -416,7 +467,6 @@ Obs(k, c) ==
 (* ======================================================================= *)
 (* Obligations                                                             *)
 (* ======================================================================= *)
-Sel(cond, name) == IF cond THEN <<name>> ELSE <<>>
 VelBoth(c) == VelMeaningful(c.vew) /\ VelMeaningful(c.vns)
 Ew(c) == VelKt(c.st, c.dew, c.vew)
 Ns(c) == VelKt(c.st, c.dns, c.vns)
